@@ -12,5 +12,6 @@ int stub_udict_cmp(struct udict *a, struct udict *b);
 #define VF_DATE_PROG 2
 #define VF_DATE_ORIG 4
 #define VF_RAP_DELAY 8
+#define VF_UBUF 16
 static inline bool spec_same_uref(const struct uref *a, const struct uref *b, unsigned may, uint64_t flag_mask);
 #endif
